@@ -459,6 +459,7 @@ void vf_run(const uint8_t *data, size_t len)
         base = g_arr;
         scratch = g_tmp;
     } else {
+        memset(&g_vec, 0xA5, sizeof g_vec);      // init must set every field itself
         cstl_vector_init(&g_vec, es);
         g_cur_op = "vector fill";
         bool ab = may_abort([&] {
@@ -475,6 +476,24 @@ void vf_run(const uint8_t *data, size_t len)
             void *p;
             LIB(p = cstl_vector_at(&g_vec, i));
             memcpy(p, in.data() + i * es, es);
+        }
+        if (h[4] & 8) {
+            // the vector to be sorted received its contents through cstl_vector_swap() from a vector of another capacity:
+            // where the scratch element lives must have travelled with the storage
+            struct cstl_vector other;
+            memset(&other, 0xA5, sizeof other);
+            cstl_vector_init(&other, es);
+            bool ab2 = may_abort([&] { cstl_vector_reserve(&other, n + slack + 9); cstl_vector_resize(&other, (n % 3) + 1); });
+            if (!ab2) {
+                LIB(cstl_vector_swap(&g_vec, &other));
+                // `other` now holds the array under test (and must have taken its capacity along), g_vec the bigger block:
+                // exchange the two handles so that the rest of the case keeps using the name g_vec
+                struct cstl_vector t = g_vec;               // (plain copies of harness-owned handles: vectors carry no self-pointer)
+                g_vec = other;
+                other = t;
+                CNT("class.vector_via_swap");
+            }
+            LIB(cstl_vector_clear(&other));
         }
         base = (uint8_t *)cstl_vector_data(&g_vec);
         cap = cstl_vector_capacity(&g_vec);
